@@ -112,7 +112,7 @@ PROPS = {
     },
     "C01": {
         "level": "model_checking",
-        "claim": "Round trip per canonical shape, split as DESIGN R3c prescribes: (i) the body encoder's bytes equal the spec wire image of the symbolic field values and "
+        "claim": "Round trip per canonical shape, split at the wire image (DESIGN R9): (i) the body encoder's bytes equal the spec wire image of the symbolic field values and "
                  "(ii) the strict decoder on that wire image returns exactly those field values with the exact total; (i) and (ii) together are decode(encode(p)) = p for the shape.",
         "note": "poll front-end via the C05 composition; blocking/async agreement is C06; packet-level header glue is C09/C10",
         "functions": ["Encodable::encode of every body", "every body decode_async (twin)", "strict decoder composition"],
@@ -160,7 +160,7 @@ PROPS = {
     "C13": {
         "level": "model_checking",
         "claim": "Protocol::new is decided against the three valid (name, level) pairs for every name of 0,1,3..7 bytes and every level (InvalidProtocol carrying name+level, InvalidString for "
-                 "non-UTF-8 names); a symbolic v3.1 / v3.1.1 CONNECT given to the v5 blocking, strict and body decoders, and a v5 CONNECT given to the v3 ones, yield "
+                 "non-UTF-8 names); Protocol::decode_async on the wire form for every name of 4..8 bytes and every level; a symbolic (and, for identification alone, a concrete) v3.1 / v3.1.1 CONNECT given to the v5 blocking, strict and body decoders, and a v5 CONNECT given to the v3 ones, yield "
                  "UnexpectedProtocol(version found) after consuming exactly protocol name + level, and resuming with the matching family's decode_with_protocol equals the native decode.",
         "note": "sync twin; from_utf8 replaced by the byte-wise UTF-8 model (Protocol::new) / class stub (packets)",
         "functions": ["Protocol::new", "Protocol::decode_async", "v3::Connect::{decode_async, decode_with_protocol}", "v5::Connect::{decode_async, decode_with_protocol}"],
@@ -171,7 +171,7 @@ PROPS = {
     "C17": {
         "level": "model_checking",
         "claim": "For every ASCII filter text of the enumerated shapes (plain, '$share/'+3..5, near-miss prefixes) that the constructor accepts: text read-back, is_shared, shared_group_name, "
-                 "shared_filter, shared_info equal the unique '$share/'+name+'/'+filter split (no slicing panic); Eq/Ord/PartialOrd/Hash of two filters equal those of their texts.",
+                 "shared_filter, shared_info equal the unique '$share/'+name+'/'+filter split (no slicing panic); Eq/Ord/PartialOrd/Hash of two filters (plain vs shared, shared vs shared) equal those of their texts.",
         "note": "real constructor and validator (no class stub); Hash compared through a recording Hasher",
         "functions": ["TopicFilter::try_from", "TopicFilter::{is_shared, shared_group_name, shared_filter, shared_info}", "Deref/Eq/Ord/PartialOrd/Hash for TopicFilter"],
         "bounds": {"all": "ASCII content, 3..5 symbolic bytes after the concrete prefix"},
@@ -205,7 +205,7 @@ PROPS = {
     "C09": {
         "level": "model_checking",
         "claim": "The real encode_async coroutine with tokio's write_all, driven by a scripted AsyncWrite sink (1..k bytes per write, Pending before/between writes), emits exactly the bytes of "
-                 "encode() for a v3 PUBLISH (symbolic pid/topic/payload/dup), the fixed-size v3 packets and a v5 PUBACK with properties; encode() twice is identical; VarBytes::{Fixed2,Fixed4,Dynamic}::as_ref "
+                 "encode() for a v3 PUBLISH (symbolic pid/topic/payload/dup), the fixed-size v3 packets and a v5 PUBACK (with properties: all at once; medium form: two partial writes); encode() twice is identical; the v3 PUBLISH and v5 PUBACK body encoders streamed into io::Write sinks taking 1 and 2 bytes per call write exactly the packet bytes after the fixed header; VarBytes::{Fixed2,Fixed4,Dynamic}::as_ref "
                  "exposes exactly those bytes. Packet-level = header ++ body stream is asserted against the spec image by C10's packet-level scenarios.",
         "note": "scripts are concrete (positions must be), contents symbolic; one coroutine level is within reach of the solver",
         "functions": ["v3::Packet::encode_async", "v5::Packet::encode_async", "tokio::io::AsyncWriteExt::write_all", "Packet::encode", "VarBytes::as_ref"],
@@ -275,7 +275,7 @@ PROPS = {
         "level": "model_checking",
         "claim": "var_int_len/total_len/header_len/remaining_len over the whole usize domain, the variable-byte-integer writer for every v < 2^28 "
                  "(minimal form, reported size, no overrun) and the reader on every byte string of length <= 6 (value, bytes consumed, "
-                 "eof vs InvalidVarByteInt) are decided by the solver against an independent reference.",
+                 "eof vs InvalidVarByteInt) are decided by the solver against an independent reference; the header state machine of the real poll.rs agrees with that reference on 3-byte, 5-byte and over-long headers at every position and transport script (C05 steps, shared label).",
         "note": "trusted: Kani/CBMC/CaDiCaL; writer reached through SubscribeProperties::encode, reader through decode_raw_header on the sync twin; "
                 "io::Error->Error conversion stubbed (message text dropped)",
         "functions": ["var_int_len", "total_len", "header_len", "remaining_len", "write_var_int (via SubscribeProperties::encode)",
@@ -290,7 +290,7 @@ PROPS = {
     "C16": {
         "level": "model_checking",
         "claim": "TopicFilter::is_invalid equals a level-based MQTT 4.7/4.8.2 oracle for every string of up to N arbitrary Unicode scalars "
-                 "(all character classes incl. NUL and multi-byte), with and without concrete $share-style prefixes; bounded by N.",
+                 "(all character classes incl. NUL and multi-byte), with and without concrete $share-style prefixes; bounded by N. A SUBSCRIBE/UNSUBSCRIBE frame (v3, v5) carrying an empty filter, alone or after a valid one, is rejected by the strict, blocking and async decoders; the 65,535-byte limit is decided on 65,536-byte strings of one- and two-byte characters.",
         "note": "trusted: Kani/CBMC/CaDiCaL and the 60-line oracle in harness/src/spec/topic.rs; strings longer than the bound are outside the claim",
         "functions": ["TopicFilter::is_invalid"],
         "bounds": {"quick": "all strings of 0..=4 Unicode scalars; '$share/' + 1..=5 scalars; near-miss prefixes + 3; 65536-byte guard",
